@@ -622,6 +622,9 @@ def evaluate(text, gold, units=None):
         ('boundary_noedge_fscore', boundary_noedge_eval.fscore())))
 
     if units:
+        # ignore empty lines, as read_data() does for the scores above
+        text, gold, units = (
+            [utt for utt in t if utt.strip()] for t in (text, gold, units))
         labels_text = compute_class_labels(text, units)
         labels_gold = compute_class_labels(gold, units)
         with warnings.catch_warnings():
